@@ -108,6 +108,7 @@ func oracle(c *Case) (interleaved bool, err error) {
 	errs := make([]error, c.Goroutines)
 	var active, maxActive, finished atomic.Int32
 	var added atomic.Int64
+	var snapStarted atomic.Bool
 	var wg sync.WaitGroup
 	for g := 0; g < c.Goroutines; g++ {
 		wg.Add(1)
@@ -133,6 +134,13 @@ func oracle(c *Case) (interleaved bool, err error) {
 					}
 					if !mine {
 						continue
+					}
+					if c.FlushDuring && !c.Big && added.Load() >= int64(c.Total/2) && !snapStarted.Load() {
+						// the second half of the rows is added while the
+						// snapshot is being written, not before
+						for spin := 0; spin < 4000000 && !snapStarted.Load(); spin++ {
+							runtime.Gosched()
+						}
 					}
 					row := c.row(i)
 					if c.ReuseMap {
@@ -171,9 +179,11 @@ func oracle(c *Case) (interleaved bool, err error) {
 			snapErr = fix.Safe(func() error {
 				db, err := bbolt.Open(snapPath, 0o644, nil)
 				if err != nil {
+					snapStarted.Store(true)
 					return err
 				}
 				defer db.Close()
+				snapStarted.Store(true)
 				return w.(*updog.IndexWriter).WriteToBoltDatabase(db)
 			})
 		}()
@@ -517,13 +527,25 @@ func runHuge(t *testing.T, c *HugeCase) {
 	}
 }
 
+// overlapFlush: fixed cases in which several thousand AddRow calls overlap the
+// writing of a snapshot that holds more than 1000 distinct values.
+func overlapFlush(t *testing.T) {
+	for _, g := range []int{2, 8, 24} {
+		for _, reuse := range []bool{false, true} {
+			run(t, &Case{Goroutines: g, Total: 6000, Cols: 2, K: []int{1100, 5}, Split: g % 2, ReuseMap: reuse, FlushDuring: true})
+		}
+	}
+}
+
 func TestQuick(t *testing.T) {
+	overlapFlush(t)
 	runHuge(t, &HugeCase{Rows: 1<<21 + 70001, Goroutines: 8, Big: true})
 	fix.Pinned(t, prop, replay)
 	fix.Check(t, "addrow", 60, func(rt *rapid.T) { run(rt, drawCase(rt)) })
 }
 
 func TestThorough(t *testing.T) {
+	overlapFlush(t)
 	switch shard, _ := evid.Shard(); shard {
 	case 0:
 		runHuge(t, &HugeCase{Rows: 1<<21 + 70001, Goroutines: 8, Big: true})
